@@ -20,17 +20,17 @@ CHECKS = {
 }
 
 CHECKS["C19"] = dict(cat="proof", technique="GF(2)-linear abstract interpretation of the step function's MIR + exact bit-matrix algebra; dominance/provenance/bit-range rules for the distributions",
-    text="Proof for the algebraic core: the state update of Xorshift64::next_bits is interpreted in the GF(2)-linear fragment into a 64x64 bit matrix T read off the code; rank 64 (bijection, 0 is the only fixed point so a non-zero seed never reaches 0), T^(2^64-1)=I and T^((2^64-1)/p)!=I for all seven prime factors, with the factorisation and ord_641(2)=64 re-derived, plus an independent minimal-polynomial (Berlekamp-Massey) irreducibility/primitivity cross-check => one cycle through all 2^64-1 non-zero states. Structural obligations: seed!=0 dominates construction; the float sample's bit pattern lies in [0x3F800000,0x3FFFFFFF] consuming exactly 23 bits of one draw and is mapped affinely (polynomial identity); composite distributions draw in order from the same generator; rejection samplers return only the accepted vector; Bernoulli is a strict < against a Uniform(0..1) sample.",
+    text="Proof for the algebraic core: the state update of Xorshift64::next_bits is interpreted in the GF(2)-linear fragment into a 64x64 bit matrix T read off the code; rank 64 (bijection, 0 is the only fixed point so a non-zero seed never reaches 0), T^(2^64-1)=I and T^((2^64-1)/p)!=I for all seven prime factors, with the factorisation and ord_641(2)=64 re-derived, plus an independent minimal-polynomial (Berlekamp-Massey) irreducibility/primitivity cross-check => one cycle through all 2^64-1 non-zero states. Structural obligations: seed!=0 dominates construction; the float sample's bit pattern lies in [0x3F800000,0x3FFFFFFF] consuming exactly 23 bits of one draw and is mapped affinely (polynomial identity; a non-affine form is refuted by a witness range/unit value that leaves [start, end], else the rule answers 'cannot decide'); composite distributions draw in order from the same generator; rejection samplers return only the accepted vector; Bernoulli is a strict < against a Uniform(0..1) sample.",
     note="Trusted: rustc MIR construction, fact serialiser, Python integer arithmetic, IEEE-754 bit layout. Not decided: rounding at the top of an offset float range, integer-range arithmetic, unit length of normalised samples.",
     ref="§3 C19")
 
 CHECKS["C03"] = dict(cat="other", technique="constant-table rules on rustc-evaluated PLANES; finite-domain abstract interpretation of outcode/is_inside/status; MIR reachability/must-pass/provenance + polynomial-identity rules",
-    text="Decides: the frustum plane table is exactly the six half-spaces with distinct one-bit outcodes; ClipPlane::outcode/is_inside agree with it (abstract interpretation, the signed distance being the only symbol); ClipVert::new is the sole constructor and caches outcode(&pos) of the stored position; status() evaluated exhaustively on a two-plane outcode domain and generalised by its folds being bitwise-only; a Visible triangle is pushed unchanged exactly once with no clipping reachable, a Hidden one emits nothing; both scratch polygons are cleared on every path to the next triangle (batch independence); position and attribute are interpolated between the same endpoints in the same order with the same t, and t*(d1-d0) = -d0 as a polynomial identity; interpolated vertices go through ClipVert::new; the fan keeps (a, e[0], e[1]) order.",
+    text="Decides: the frustum plane table is exactly the six half-spaces with distinct one-bit outcodes; ClipPlane::outcode/is_inside agree with it (abstract interpretation, the signed distance being the only symbol); ClipVert::new is the sole constructor and caches outcode(&pos) of the stored position; view_frustum::outcode evaluated on a symbolic point over all 64 combinations of its comparisons equals the sum of the bits of exactly the planes with signed distance > 0 (a deviating combination counts only if a grid point realises it); status() evaluated exhaustively on a two-plane outcode domain and generalised by its folds being bitwise-only; a Visible triangle is pushed unchanged exactly once with no clipping reachable, a Hidden one emits nothing; both scratch polygons are cleared on every path to the next triangle (batch independence); position and attribute are interpolated between the same endpoints in the same order with the same t, and t*(d1-d0) = -d0 as a polynomial identity; interpolated vertices go through ClipVert::new; the fan keeps (a, e[0], e[1]) order.",
     note="Trusted: rustc const evaluation and MIR construction, fact serialiser, documented Vec semantics. Not decided: exactness of the clipped region under float rounding, attribute values.",
     ref="§3 C03")
 
 CHECKS["C15"] = dict(cat="other", technique="builder recipes (provenance terms of push_face/push_vert arguments) evaluated over rustc-const-evaluated tables and checked as oriented 2-manifolds; UNIT-provenance abstract class; dominance and index-polynomial rules",
-    text="For the five table-driven builders (tetrahedron, box, octahedron, dodecahedron, icosahedron) the mesh each build() assembles is reconstructed from the recipe in its MIR over the tables the compiler evaluated, and checked cell by cell: indices valid, every directed edge once with its reverse once (closed, consistently oriented, watertight after merging), Euler characteristic 2, outward winding, unit vertex normals on the outward side, planar regular pentagons. For every solid including the lathe family: every normal handed to a vertex has UNIT provenance (normalize, unit literal/table entry, rotation of a unit vector, inductively through loops), every build() returns through mesh validation, parameter asserts guard construction, lathe quads tile p,p+1,p+n,p+n+1 with an oppositely traversed diagonal and the two cap fans are wound oppositely.",
+    text="For the five table-driven builders (tetrahedron, box, octahedron, dodecahedron, icosahedron) the mesh each build() assembles is reconstructed from the recipe in its MIR over the tables the compiler evaluated, and checked cell by cell: indices valid, every directed edge once with its reverse once (closed, consistently oriented, watertight after merging), Euler characteristic 2, outward winding, unit vertex normals on the outward side, planar regular pentagons. For every solid including the lathe family: every normal handed to a vertex has UNIT provenance (normalize, unit literal/table entry, rotation of a unit vector, inductively through loops), every build() returns through mesh validation, parameter asserts guard construction, lathe quads tile p,p+1,p+n,p+n+1 with an oppositely traversed diagonal, both triangles are pushed on every iteration of the sector loop, the two cap fans are wound oppositely, Lathe::build never reorders or edits the profile it was given, and the cone's profile normal is perpendicular to its slant edge and leans outward for all radii (symbolic identity, witness radii on failure).",
     note="Trusted: rustc const evaluation and MIR construction; documented meaning of normalize/to_pt/Neg/Lerp. Not decided: lathe topology, seam and poles for every sector count, radii/extents (index arithmetic over runtime counts plus float rounding). geom is analysed under the ws and std configurations (it needs an fp feature).",
     ref="§3 C15")
 
@@ -51,26 +51,26 @@ CHECKS["C01"] = dict(cat="other", technique="MIR provenance / dominance rules on
     text="Decides the shape every perspective-correct pipeline must have (necessary conditions only): clip is fed the triangles assembled from the vertex shader's output wrapped by ClipVert::new and dominates tri_fill, whose input derives from iterating the clip output; position vec3(x, y, 1.0) and attribute are divided by the same w (component 3 of that clip position); only the divided position goes through render()'s own to_screen; Scanline::fragments divides every varying by the interpolated 1/w of the same fragment and both Target impls get fragments only through it; Batch::render and Camera::render forward their own fields / to_world.then(world_to_project()) and viewport in one unconditional call.",
     note="Trusted: rustc MIR construction, fact serialiser. Not decided: anything numerical - image equality, pixel-centre rule, fan completeness, viewport orientation.",
     ref="§3 C01")
-CHECKS["C12"] = dict(cat="other", technique="panic-edge enumeration with discharge; bounded-index provenance of each index component against its own axis; polynomial identities for the relative entry points",
-    text="Decides that neither bounded sampler can index out of range for any coordinate, in every feature configuration: the only panic edges below sample/sample_abs are the view's own bounds panic (discharged by each index component carrying `& mask` with mask = dim-1 under a dominating is_power_of_two assertion, resp. floor(clamp(x, 0.0, dim_f-1.0)) as u32, against the same axis), edges of the checked index maths (discharged by the Inner invariant for x<w, y<h) and f32::clamp's bound check; masks and Texture.w/h are verified at their construction sites; sample(tc) = sample_abs(uv(w*u, h*v)) as polynomial identities; SamplerOnce has no extra panic edge.",
-    note="Hypotheses taken from the property: non-empty texture, repeat sampler used with its own texture; dimensions < 2^24. Trusted: saturating float->int casts, f32::clamp semantics. Not decided: which texel is addressed.",
+CHECKS["C12"] = dict(cat="other", technique="panic-edge enumeration with discharge; bounded-index provenance of each index component against its own axis; polynomial identities for the relative entry points; finite-domain abstract interpretation of the float->index conversion chain",
+    text="Decides that neither bounded sampler can index out of range for any coordinate, in every feature configuration: the only panic edges below sample/sample_abs are the view's own bounds panic (discharged by each index component carrying `& mask` with mask = dim-1 under a dominating is_power_of_two assertion, resp. floor(clamp(x, 0.0, dim_f-1.0)) as u32, against the same axis), edges of the checked index maths (discharged by the Inner invariant for x<w, y<h) and f32::clamp's bound check; masks and Texture.w/h are verified at their construction sites; sample(tc) = sample_abs(uv(w*u, h*v)) as polynomial identities; SamplerOnce has no extra panic edge. Which texel the repeating sampler addresses: the masked value equals floor(coord) on every class of coordinate (negative/positive x integral/non-integral, -0.0; |coord| < 2^31) by a finite-domain interpretation of the conversion chain (floor, float->signed truncation, is_sign_negative, integer +/- constants, int->int; float->unsigned of negatives, narrow targets and float arithmetic before the floor are recognised as wrong), which also analyses helper functions and the repository's own floor in every feature configuration.",
+    note="Hypotheses taken from the property: non-empty texture, repeat sampler used with its own texture; dimensions < 2^24. Trusted: saturating float->int casts, f32::clamp semantics. std/libm/micromath floor are trusted by name. Not decided: the clamping sampler's texel choice.",
     ref="§3 C12")
-CHECKS["C17"] = dict(cat="other", technique="syntactic ranking argument on the recursion (decreasing zero-guarded budget, sole cycle), constructor-invariant dominance, control dependence of the emit, abstract interpretation of step() over orderings",
-    text="Decides the structural clauses of approximate(): do_approx is the only recursion, every self-call passes max_dep-1 and is reachable only when max_dep != 0 (ranking function, also discharging the underflow), the initial budget is 10+len.ilog2() over [0,1]; BezierSpline is built only by new after len>=4 && len%3==1; the only emit is control-dependent on `max_dep==0 || halt(eval(mid) - lerp(eval(a),eval(b)))` and emits eval(a); the recursion covers [a,mid] then [mid,b]; step() returns min for t<=0 and max for t>=1 (all orderings); the last control point is pushed verbatim on every path after the recursion.",
-    note="Trusted: rustc MIR construction; the caller's halt closure terminates. Not decided: evaluator agreement, tangent, convex hull, continuity.",
+CHECKS["C17"] = dict(cat="other", technique="syntactic ranking argument on the recursion (decreasing zero-guarded budget, sole cycle), constructor-invariant dominance, control dependence of the emit, abstract interpretation of step() over orderings, symbolic interpretation of the evaluators/segment() with polynomial identities",
+    text="Decides the structural clauses of approximate(): do_approx is the only recursion, every self-call passes max_dep-1 and is reachable only when max_dep != 0 (ranking function, also discharging the underflow), the initial budget is 10+len.ilog2() over [0,1]; BezierSpline is built only by new after len>=4 && len%3==1; the only emit is control-dependent on `max_dep==0 || halt(eval(mid) - lerp(eval(a),eval(b)))` and emits eval(a); the recursion covers [a,mid] then [mid,b]; step() returns min for t<=0 and max for t>=1 (all orderings); the last control point is pushed verbatim on every path after the recursion; eval/fast_eval return the end control points verbatim at and beyond the ends. Algebraic clauses as polynomial identities in t and the control points: for 0<t<1 eval (De Casteljau) = fast_eval (Horner) = the Bernstein form (hence a convex combination), tangent = its derivative; BezierSpline::segment returns, for every segment count 1..4 and every position of t (each floor(t*n) and t = 1), the four control points of segment i with i + local parameter = t*n; eval/tangent evaluate exactly that cubic at exactly that parameter.",
+    note="Trusted: rustc MIR construction; the caller's halt closure terminates. Identities hold over the reals. Not decided: float rounding of the evaluators and of t*n at joins.",
     ref="§3 C17")
 
-CHECKS["C09"] = dict(cat="other", technique="symbolic abstract interpretation of the matrix/vector functions' MIR over a commutative-ring domain; results compared as polynomial identities over Q (rotations modulo sin^2+cos^2=1)",
-    text="Decides the algebraic half of the property over the reals: compose is the matrix product and then() is compose() swapped (3x3, 4x4); applying a composition equals applying the parts in order (apply and apply_pt, affine matrices); the determinant is multiplicative (1008-term identity) and det(I)=1; transpose swaps indices; translate/scale/from_basis have their defining effect on points; rotate_x/y/z are orthogonal with determinant 1 and fix their axis; dot is the symmetric bilinear form and cross is anticommutative and orthogonal to its operands. One known finding: apply() gives vectors the homogeneous coordinate 1, so a translation moves vectors (pinned by the existing tests, recorded in known_findings.txt).",
-    note="Trusted: rustc MIR construction; the symbolic interpreter's models of iterator adaptors, array::from_fn/map and Into/From wrappers. Not decided: the Gauss-Jordan inverse (branches on float magnitudes), conditioning, every float rounding effect.",
+CHECKS["C09"] = dict(cat="other", technique="symbolic abstract interpretation of the matrix/vector functions' MIR over a commutative-ring domain; results compared as polynomial identities over Q (rotations modulo sin^2+cos^2=1) and, for the inverse, as rational functions in sympy's fraction field per enumerated pivot sequence",
+    text="Decides the algebraic half of the property over the reals: compose is the matrix product and then() is compose() swapped (3x3, 4x4); applying a composition equals applying the parts in order (apply and apply_pt, affine matrices); the determinant is multiplicative (1008-term identity) and det(I)=1; transpose swaps indices; translate/scale/from_basis have their defining effect on points; rotate_x/y/z are orthogonal with determinant 1 and fix their axis; dot is the symmetric bilinear form and cross is anticommutative and orthogonal to its operands; orient_y/orient_z map their axis onto n, give pairwise orthogonal right-handed axes with the x axis on the hint's side (normalising factor opaque). The inverse: for every sequence of pivot rows partial pivoting can choose (6 on a symbolic affine matrix in the quick tier, all 24 on a general 16-symbol matrix in the thorough tier) Mat4x4::inverse returns N with N.M = I as an identity of rational functions (exact arithmetic with gcd cancellation), and the pivot search, executed with its real comparator under an order in which the row to be chosen has the strictly largest magnitude, returns that row. One known finding: apply() gives vectors the homogeneous coordinate 1, so a translation moves vectors (pinned by the existing tests, recorded in known_findings.txt).",
+    note="Trusted: rustc MIR construction; the symbolic interpreter's models of iterator adaptors, array::from_fn/map and Into/From wrappers. A chosen pivot is taken to be non-zero (a zero column maximum means a singular matrix, outside the property). sympy (python3-vt) is used as an exact arithmetic library only. Not decided: conditioning, every float rounding effect.",
     ref="§8.7 C09")
 
 CHECKS["C08"] = dict(cat="other", technique="symbolic abstract interpretation of perspective/orthographic/viewport on symbolic parameters; rational-function identities; sign by non-negativity certificate; structural rules for the camera",
-    text="Decides the algebraic clauses over the reals for all valid parameters: perspective puts view z into clip w, sends the near plane to z_c = -w and the far plane to z_c = +w, scales x and y by fr and fr*ar, and is depth-monotone (slope coefficient 2fn/(n-f) < 0 by certificate); orthographic sends the box corners to (-1,-1,-1) and (1,1,1) with w = 1; viewport sends NDC (-1,-1) and (1,1) to the rectangle's corners and passes depth through; Camera::world_to_project is world_to_view.then(project), Camera::viewport is built from the request intersected with the frame on every path, Camera::perspective uses its own aspect ratio.",
-    note="Trusted: rustc MIR construction, the symbolic interpreter's std models. Not decided: float rounding, pixel-exact pinhole geometry, the first-person camera's rigid motion (trigonometric values), disjoint viewport rectangles.",
+    text="Decides the algebraic clauses over the reals for all valid parameters: perspective puts view z into clip w, sends the near plane to z_c = -w and the far plane to z_c = +w, scales x and y by fr and fr*ar, and is depth-monotone (slope coefficient 2fn/(n-f) < 0 by certificate); orthographic sends the box corners to (-1,-1,-1) and (1,1,1) with w = 1; viewport sends NDC (-1,-1) and (1,1) to the rectangle's corners and passes depth through; Camera::world_to_project is world_to_view.then(project), Camera::viewport builds its matrix AND its recorded dimensions from the request intersected with the frame on every path, Camera::perspective uses its own aspect ratio. First-person camera, with sin/cos of azimuth and altitude as indeterminates modulo sin^2+cos^2=1: the view transform takes the position to the origin, its axes are pairwise orthogonal, the heading goes to the positive depth axis, the right axis stays horizontal, the sideways hint handed to orient_z is never parallel to the heading for any altitude rotate_to allows (|hint x heading|^2 = r^2), and translate() moves along the horizontal heading/right/up axes independently of the altitude.",
+    note="Trusted: rustc MIR construction, the symbolic interpreter's std models. Not decided: float rounding, pixel-exact pinhole geometry, unit length of the first-person axes (the normalising factor is opaque), disjoint viewport rectangles.",
     ref="§8.7 C08")
 CHECKS["C18"] = dict(cat="other", technique="symbolic abstract interpretation with trigonometric functions as opaque function symbols; rational identities; constant-table check",
-    text="Decides the algebraic/structural clauses: unit round trips rads/degs/turns are identities and the compile-time unit constants agree (360*RADS_PER_DEG = RADS_PER_TURN = 2pi to f32 precision); +, -, unary -, *f32, /f32, min, max act on the magnitude; wrap(a, lo, hi) = lo + rem_euclid(a-lo, hi-lo); polar/spherical <-> Cartesian conversions are exactly (r cos az, r sin az), (len, atan2(y, x)), r(cos az cos alt, sin alt, sin az cos alt), (len, atan2(z, x), atan2(y, sqrt(x^2+z^2))); sin_cos = (sin, cos).",
+    text="Decides the algebraic/structural clauses: unit round trips rads/degs/turns are identities and the compile-time unit constants agree (360*RADS_PER_DEG = RADS_PER_TURN = 2pi to f32 precision); +, -, unary -, %, *f32, /f32, min, max act on the magnitude; wrap(a, lo, hi) = lo + rem_euclid(a-lo, hi-lo); polar/spherical <-> Cartesian conversions are exactly (r cos az, r sin az), (len, atan2(y, x)), r(cos az cos alt, sin alt, sin az cos alt), (len, atan2(z, x), atan2(y, sqrt(x^2+z^2))) on EVERY path through the conversion (paths enumerated over the comparisons the domain cannot decide; a path with another formula must be reachable by the zero vector only, and is reported with a witness vector when a non-zero vector reaches it and gets another radius/angle); sin_cos = (sin, cos).",
     note="Trusted: rem_euclid's contract; rustc MIR/const evaluation. Not decided: accuracy and ranges of the trigonometric functions, behaviour at zero vectors.",
     ref="§8.7 C18")
 
@@ -116,7 +116,7 @@ def main():
             {"name": "factdump", "path": "factdump/", "serves_properties": sorted(set(CHECKS) - {"C10"}),
              "kind_free_text": "rustc_private driver serialising MIR, evaluated constants, ADTs and impls of /repo's working tree (no rule logic)"},
             {"name": "sa", "path": "sa/", "serves_properties": sorted(CHECKS),
-             "kind_free_text": "Python rule library: CFG/dominance, provenance terms, call graph, panic-edge discharge, interval domain, finite-domain abstract interpreter, GF(2) linear interpretation, constant-table rules"},
+             "kind_free_text": "Python rule library: CFG/dominance, provenance terms, call graph, panic-edge discharge, interval domain, finite-domain and ring-domain abstract interpreter with path enumeration, GF(2) linear interpretation, constant-table rules; sa/fieldeval.py (python3-vt + sympy) does exact rational-function arithmetic for C09.A8"},
             {"name": "witness", "path": "witness/", "serves_properties": ["C10"],
              "kind_free_text": "compile-fail witness corpus (misuse/twin pairs) decided by rustc"},
         ],
